@@ -273,6 +273,13 @@ def main():
     jobs.append((job_stencils, {}))
     for l in ls:
         jobs.append((job_boundary, {'l': l}))
+    # the identity integrates the INTERIOR radial functions: they must be the re-dimensionalised, correctly collapsed solution (shared obligations: whole-function run of cf_radial_solver with
+    # two solution types and nondimensionalize, and the downward interface map of every pair of layer kinds)
+    import c02, c06
+    jobs.append((c06.job_whole, {'stack': [(0, False, False), (1, True, False), (0, False, False)], 'nondim': True}))
+    for lo in c02.kinds():
+        for up in c02.kinds():
+            jobs.append((c02.job_interface, {'lower': lo, 'upper': up, 'inc_l': False, 'inc_u': False}))
     for l in ls:
         jobs.append((job_heating, {'l': l}))       # every degree: a prefactor that is right only at l = 2 (e.g. l*l+1 for 2l+1) must be seen
     meta = {
